@@ -80,7 +80,8 @@ package system
 //@   let kind = seqof(k, (0 <= k && k < len(rules) && validSys(rules[k])) ? rules[k].MetricType : 0 - 1)
 //@   ensures[new-map] m != nil && fresh(m)
 //@   ensures[only-valid-rules-grouped-by-metric] groupedValid(m)
-//@   ensures[every-valid-rule-kept] forall t Int :: t >= 0 ==> (has(m, t) <==> countEq(kind, t, n) > 0) && (has(m, t) ==> len(m[t]) == countEq(kind, t, n))
+// (C07: a request is checked against EVERY loaded rule — several rules of one metric type all stay in force)
+//@   ensures[every-valid-rule-kept]{C13,C07} forall t Int :: t >= 0 ==> (has(m, t) <==> countEq(kind, t, n) > 0) && (has(m, t) ==> len(m[t]) == countEq(kind, t, n))
 //@   modifies nothing
 //@   loop 1:
 //@     invariant[new-map] m != nil && fresh(m)
